@@ -5,9 +5,11 @@ From Pymoto Require Import Model.MatrixChecks Proofs.MatrixChecksP.
 From GenC05 Require Import ChecksGen.
 
 Ltac split_ifs :=
-  repeat match goal with
-         | |- context [if ?b then _ else _] => destruct b
-         end.
+  repeat (cbn [negb];
+          match goal with
+          | |- context [if negb ?b then _ else _] => destruct b
+          | |- context [if ?b then _ else _] => destruct b
+          end).
 
 Lemma gen_is_cvxopt_spmatrix_eq a : gen_is_cvxopt_spmatrix a = is_cvxopt_spmatrix a.
 Proof. reflexivity. Qed.
